@@ -2,6 +2,7 @@ package psim
 
 import (
 	"fmt"
+	"os"
 	"time"
 )
 
@@ -67,11 +68,34 @@ func c11Stale(c *Ctx) {
 	}
 	j := cands[c.Plan.Draw(len(cands))]
 	end := staleEnds[c.Plan.Draw(len(staleEnds))]
+	// (experiment, off by default: on the unchanged tree some of these runs end in ways
+	// that were not triaged - DESIGN.md section 12, C11-l)
+	lingers := os.Getenv("VERIF_C11_LINGERS") != ""
+	if lingers {
+		// the given-up attempt comes back and carries on for hours, heartbeats and all,
+		// while its replacement hangs without a sign of life: the old attempt's
+		// heartbeats are not the new one's - mrp has to notice the silence within its
+		// timeout (an hour) and retry once more
+		end = "stale-lingers"
+		var mains []*JobRec
+		for _, x := range cands {
+			if x.Phase == "main" {
+				mains = append(mains, x)
+			}
+		}
+		if len(mains) > 0 {
+			j = mains[c.Plan.Draw(len(mains))]
+		}
+		c.Res.Probes["stale-attempt-lingers-runs"]++
+	}
 	key := j.Key() + ":" + j.Phase
 	cfg := &RunCfg{Prog: prog, FCfg: fcfg, MaxSteps: 150000, Flags: flags,
 		WMrp: base.WMrp, WJob: base.WJob, WAux: base.WAux, WTime: base.WTime,
 		MapMode: base.MapMode, MapSalt: base.MapSalt}
 	cfg.JobFaults = map[string]string{key + "#1": end}
+	if lingers {
+		cfg.JobFaults[key+"#2"] = "hang"
+	}
 	r := c.RunOnce(cfg, nil)
 	c.Res.Class = "stale-checked"
 	returned := r.Faults["stale-attempt-returned:"+end] > 0
@@ -83,6 +107,28 @@ func c11Stale(c *Ctx) {
 	add := func(oracle, msg string) {
 		c.Res.Violations = append(c.Res.Violations, Violation{"C11", oracle,
 			fmt.Sprintf("attempt 1 of %s went silent, was given up after the heartbeat timeout and retried, then came back (%s): %s", key, end, msg), r.Steps})
+	}
+	if lingers {
+		var a2, a3 *JobRec
+		n := 0
+		for _, o := range r.Jobs {
+			if o.Key() == j.Key() && o.Phase == j.Phase {
+				n++
+				if n == 2 {
+					a2 = o
+				} else if n == 3 {
+					a3 = o
+				}
+			}
+		}
+		if a2 != nil && a2.Fault == "hang" {
+			c.Res.Probes["silent-replacement-next-to-lingering-attempt"]++
+			if a3 == nil {
+				add("silent-attempt-kept-alive-by-foreign-heartbeats", fmt.Sprintf("the replacement (attempt 2) hung without a sign of life and was never given up (run ended %s)", r.Class()))
+			} else if d := a3.StartAt - a2.StartAt; d > 120*time.Minute {
+				add("silent-attempt-kept-alive-by-foreign-heartbeats", fmt.Sprintf("the replacement (attempt 2) hung without a sign of life; mrp gave it up only after %v (heartbeat timeout: 60 minutes, checked every few minutes) - as long as attempt 1 kept writing heartbeats under its own uniquifier", d))
+			}
+		}
 	}
 	if r.Class() == "step-budget" {
 		c.Res.Class = "stale-step-budget"
